@@ -148,6 +148,7 @@ def call_hist(inp):
     ad = cls(inp["sequence"], max_errors=inp["rate"], min_overlap=3, name="a")
     cutter = AdapterCutter([ad], times=inp["times"])
     tally = {}
+    adj = {}
     total_bp = 0
     for i, s in enumerate(inp["reads"]):
         rec = SequenceRecord(f"r{i}", s, "I" * len(s))
@@ -158,6 +159,11 @@ def call_hist(inp):
             end = "five_prime_end" if isinstance(m, RemoveBeforeMatch) else "three_prime_end"
             key = (end, m.removed_sequence_length(), m.errors)
             tally[key] = tally.get(key, 0) + 1
+            if end == "three_prime_end":
+                # the base before the match in the string this round searched; none (or not A/C/G/T) is counted under ""
+                b = m.sequence[m.rstart - 1] if m.rstart > 0 else ""
+                b = b if b in ("A", "C", "G", "T") else ""
+                adj[b] = adj.get(b, 0) + 1
     st = Statistics().collect(len(inp["reads"]), total_bp, None, [cutter], [])
     a = st._adapter_statistics_as_json(st.adapter_stats[0][0], len(inp["reads"]), 0.5)
     rep = {}
@@ -165,7 +171,9 @@ def call_hist(inp):
         if a[end] is None:
             continue
         rep[end] = {"matches": a[end]["matches"], "rows": [[row["len"], row["counts"]] for row in a[end]["trimmed_lengths"]]}
-    return {"tally": [[k[0], k[1], k[2], v] for k, v in tally.items()], "report": rep, "total_matches": a["total_matches"]}
+    three = a["three_prime_end"]
+    return {"tally": [[k[0], k[1], k[2], v] for k, v in tally.items()], "report": rep, "total_matches": a["total_matches"],
+            "adjacent": adj, "adjacent_reported": None if three is None else {k: v for k, v in (three["adjacent_bases"] or {}).items() if v}}
 
 
 def check_hist(inp, res, err):
@@ -183,6 +191,8 @@ def check_hist(inp, res, err):
                     got.setdefault(end, {}).setdefault(length, {})[k] = n
     if got != want:
         bad.append(f"C20:histogram by removed length and error count in the report {got} != tally of the applied matches {want}")
+    if res["adjacent_reported"] is not None and res["adjacent_reported"] != {k: v for k, v in res["adjacent"].items() if v}:
+        bad.append(f"C20:bases adjacent to 3' matches in the report {res['adjacent_reported']} != tally {res['adjacent']}")
     n_all = sum(x[3] for x in res["tally"])
     if res["total_matches"] != n_all or sum(e["matches"] for e in res["report"].values()) != n_all:
         bad.append(f"C20:reported number of matches {res['total_matches']} != applied matches {n_all}")
